@@ -94,7 +94,7 @@ M = [
  ('der-ode-at-t0', 'stage.py', '                return jtimes(expr, self.x, ode(x=self.x, u=self.u, z=self.z, p=vertcat(self.p, self.v), t=self.t)["ode"])', '                return jtimes(expr, self.x, ode(x=self.x, u=self.u, z=self.z, p=vertcat(self.p, self.v), t=0)["ode"])', ['C16']),
  ('chain-order', 'stage.py', "            helper_u = self.control(n_rows=n_rows, n_cols=n_cols, order=order - 1, scale=scale)", "            helper_u = self.control(n_rows=n_rows, n_cols=n_cols, order=max(order - 2,0), scale=scale)", ['C16']),
  # --- C10
- ('guess-column-shift', 'sampling_method.py', "                if target.numel()*(self.N)==value.numel() or target.numel()*(self.N+1)==value.numel():\n                    value_k = value[:,k]\n                try:", "                if target.numel()*(self.N)==value.numel() or target.numel()*(self.N+1)==value.numel():\n                    value_k = value[:,max(k-1,0)] if k>=0 else value[:,k]\n                try:", ['C10']),
+ ('guess-column-shift', 'sampling_method.py', "                    kk = k if k>=0 else value.shape[1]//c-1\n", "                    kk = max(k-1,0) if k>=0 else value.shape[1]//c-1\n", ['C10']),
  ('guess-second-pass-missing', 'sampling_method.py', "        self.set_initial(stage, opti, initial_guesses) # Redo this: ocp.t is correct only now\n", "", ['C10']),
  ('dc-root-guess-time', 'direct_collocation.py', "expr_integrator_root = ca.hcat([self.eval_at_integrator_root(stage, expr, k, i, j) for k in list(range(self.N)) for i in range(self.M) for j in range(self.degree) ])", "expr_integrator_root = ca.hcat([self.eval_at_integrator_root(stage, expr, k, i, 0) for k in list(range(self.N)) for i in range(self.M) for j in range(self.degree) ])", ['C10']),
  ('priority-order', 'stage.py', "            if priority:\n                self._initial.move_to_end(var, last=False)", "            if False:\n                self._initial.move_to_end(var, last=False)", []),
@@ -138,6 +138,14 @@ M = [
  ('generic-scale-first', 'sampling_method.py', "        n = self.normalized(N)\n        return n[1]-n[0]", "        n = self.normalized(N)\n        return 1.0/N", ['C06']),
  ('callback-bound-early', 'direct_method.py', "        self._callback = (stage, fun)\n", "        opti_now = self.opti\n        self._callback = (stage, lambda iter, sol: fun(iter, OcpSolution(opti_now.non_converged_solution, stage)))\n", ['C13']),
  ('time-vector-float', 'solution.py', "        return np.atleast_1d(self.sol.value(time)), DM2numpy(res, MX(expr).shape, time.numel())", "        return self.sol.value(time), DM2numpy(res, MX(expr).shape, time.numel())", ['C07']),
+ # --- mechanisms repaired after batch 8
+ ('stale-copy-not-refused', 'ocp.py', "            if getattr(self, '_var_stale', False):\n", "            if False:\n", ['C13']),
+ ('transcribe-in-place', 'ocp.py', "        if self._is_original and not kwargs:\n            self._transcribed # transcribes a copy: the declared specification stays as it is\n        else:\n            self._transcribe(**kwargs)", "        self._transcribe(**kwargs)", ['C13']),
+ ('objective-without-substages', 'stage.py', "        for s in self._stages:\n            r = r + s.objective\n        return r", "        return r", ['C12']),
+ ('inf-time-frozen', 'sampling_method.py', "        subst_to.append(BSpline(basis, self.integrator_grid[k][l] + tscale*DM(range(degree+1))/degree))", "        subst_to.append(BSpline(basis, self.integrator_grid[k][l] + 0*tscale*DM(range(degree+1))/degree))", ['C15']),
+ ('scalar-expression-guess-not-repeated', 'sampling_method.py', "                if value.shape[0]==1 and var.is_column() and not var.is_scalar(): value = repmat(value, var.shape[0], 1)\n            # Row vector if vector", "            # Row vector if vector", ['C10']),
+ ('parent-constraint-scale-dropped', 'direct_method.py', "            self.opti.subject_to(self.eval_top(stage, c), scale=args[\"scale\"], meta = m)", "            self.opti.subject_to(self.eval_top(stage, c), meta = m)", ['C12']),
+ ('array-guess-single-columns', 'sampling_method.py', "                    value_k = value[:,kk*c:(kk+1)*c]", "                    value_k = value[:,kk]", ['C10']),
 ]
 
 def main():
